@@ -628,3 +628,129 @@ Proof.
   split; [reflexivity|]. split; [reflexivity|]. intro x0. fold (te_entries te'). fold (te_lookup te' x0). rewrite K6.
   apply spec_targets_ext. intro x. unfold te_lookup, te_entries, te0. cbn [ted_from te_existing te_new]. reflexivity.
 Qed.
+
+(* ---------------------------------------------------------------------------------------- *)
+(* frame: putting the document of the role under edit back into the tree (sign_targets_editor,
+   delegated_role_mut(name).targets = ...) changes that role and nothing else *)
+
+(* everything a role says itself: header, version, expiration, targets, key table, signers, and the names of the
+   roles it delegates to (their documents are those roles' own) *)
+Definition shallow (n : enode) :=
+  (en_hdr n, en_version n, en_expires n, en_entries n, en_dkeys n, en_signers n, names (en_children n)).
+
+Lemma find_go_none fin m l :
+  (forall c, In c l -> en_name c <> m /\ fin c = None) -> find_go fin m l = None.
+Proof.
+  induction l as [|c l IH]; intro H; [reflexivity|]. cbn [find_go].
+  destruct (H c (or_introl eq_refl)) as [Hn Hf]. apply bytes_eqb_neq in Hn. rewrite Hn, Hf.
+  apply IH. intros x Hx. apply H. right. exact Hx.
+Qed.
+
+Lemma find_role_in_none p : forall m, ~ In m (names (all_roles (en_children p))) -> find_role_in m p = None.
+Proof.
+  induction p as [h v e en dk ch sg IH] using enode_ind'. intros m Hn. rewrite find_role_in_eq. cbn [en_children] in *.
+  apply find_go_none. intros c Hc. rewrite Forall_forall in IH. split.
+  - intro E. apply Hn. rewrite <- E. apply in_names, in_all_roles, Hc.
+  - apply IH; [exact Hc|]. intro Hin. apply Hn. unfold names in *. apply in_map_iff in Hin as (x & Ex & Hx).
+    rewrite <- Ex. apply in_names. eapply in_all_roles_sub; [exact Hc|]. rewrite en_flat_eq. right. exact Hx.
+Qed.
+
+(* replace succeeds exactly where find does *)
+Lemma replace_find d top : forall name,
+  match replace_role name d top with
+  | Some _ => exists c, find_role_in name top = Some c
+  | None => find_role_in name top = None
+  end.
+Proof.
+  induction top as [h v e en dk ch sg IH] using enode_ind'. intro name.
+  rewrite replace_role_eq, find_role_in_eq. cbn [en_children en_hdr en_version en_expires en_entries en_dkeys en_signers].
+  rewrite Forall_forall in IH.
+  assert (match replace_go (replace_role name d) name d ch with
+          | Some _ => exists c, find_go (find_role_in name) name ch = Some c
+          | None => find_go (find_role_in name) name ch = None end) as H.
+  { induction ch as [|c r IHr]; [reflexivity|]. cbn [replace_go find_go].
+    destruct (bytes_eqb (en_name c) name); [eexists; reflexivity|].
+    pose proof (IH c (or_introl eq_refl) name) as Hc. destruct (replace_role name d c) as [c'|].
+    - destruct Hc as [x ->]. eexists; reflexivity.
+    - rewrite Hc. specialize (IHr (fun y Hy => IH y (or_intror Hy))).
+      destruct (replace_go (replace_role name d) name d r); exact IHr. }
+  destruct (replace_go (replace_role name d) name d ch); exact H.
+Qed.
+
+Lemma replace_go_names rep name d : (forall c c', rep c = Some c' -> en_name c' = en_name c) ->
+  forall l l', replace_go rep name d l = Some l' -> names l' = names l.
+Proof.
+  intros Hrep. induction l as [|c r IH]; intros l' H; [discriminate|]. cbn [replace_go] in H.
+  destruct (bytes_eqb (en_name c) name).
+  - inversion H; subst. reflexivity.
+  - destruct (rep c) as [c'|] eqn:R.
+    + inversion H; subst. cbn [names map]. rewrite (Hrep c c' R). reflexivity.
+    + destruct (replace_go rep name d r) as [r'|]; [|discriminate]. inversion H; subst. cbn [names map]. f_equal. apply IH. reflexivity.
+Qed.
+
+Lemma replace_shallow d top name top' : replace_role name d top = Some top' -> shallow top' = shallow top.
+Proof.
+  rewrite replace_role_eq. destruct (replace_go (replace_role name d) name d (en_children top)) as [ch'|] eqn:G; [|discriminate].
+  intro H. inversion H; subst; clear H. unfold shallow. cbn [en_hdr en_version en_expires en_entries en_dkeys en_signers en_children].
+  rewrite (replace_go_names (replace_role name d) name d (fun c c' R => proj1 (replace_role_names d c name c' R)) _ _ G).
+  reflexivity.
+Qed.
+
+Theorem replace_role_frame d top : forall name top' c m,
+  replace_role name d top = Some top' ->
+  find_role_in name top = Some c ->
+  m <> name ->
+  ~ In m (names (all_roles (en_children c))) ->
+  ~ In m (names (all_roles (en_children d))) ->
+  option_map shallow (find_role_in m top') = option_map shallow (find_role_in m top).
+Proof.
+  induction top as [h v e en dk ch sg IH] using enode_ind'. intros name top' c m Hrep Hfind Hm Hold Hnew.
+  rewrite replace_role_eq in Hrep. cbn [en_children en_hdr en_version en_expires en_entries en_dkeys en_signers] in Hrep.
+  destruct (replace_go (replace_role name d) name d ch) as [ch'|] eqn:G; [|discriminate]. inversion Hrep; subst top'; clear Hrep.
+  rewrite find_role_in_eq in Hfind. rewrite !find_role_in_eq. cbn [en_children] in *. rewrite Forall_forall in IH.
+  revert ch' G Hfind. induction ch as [|c0 r IHr]; intros ch' G Hfind; [discriminate|].
+  cbn [replace_go] in G. cbn [find_go] in Hfind.
+  destruct (bytes_eqb (en_name c0) name) eqn:E.
+  - (* the role itself *)
+    inversion G; subst ch'; clear G. inversion Hfind; subst c; clear Hfind. cbn [find_go].
+    assert (en_name (set_content c0 d) = en_name c0) as -> by reflexivity.
+    apply bytes_eqb_eq in E.
+    assert (bytes_eqb (en_name c0) m = false) as -> by (apply bytes_eqb_neq; congruence).
+    rewrite (find_role_in_none (set_content c0 d) m) by (unfold set_content; cbn [en_children]; exact Hnew).
+    rewrite (find_role_in_none c0 m Hold). reflexivity.
+  - pose proof (replace_find d c0 name) as RF. destruct (replace_role name d c0) as [c0'|] eqn:R.
+    + (* the role is below c0 *)
+      inversion G; subst ch'; clear G. destruct RF as [x Hx]. rewrite Hx in Hfind. inversion Hfind; subst x; clear Hfind.
+      cbn [find_go]. rewrite (proj1 (replace_role_names d c0 name c0' R)).
+      destruct (bytes_eqb (en_name c0) m).
+      * cbn [option_map]. rewrite (replace_shallow d c0 name c0' R). reflexivity.
+      * pose proof (IH c0 (or_introl eq_refl) name c0' c m R Hx Hm Hold Hnew) as Hc.
+        destruct (find_role_in m c0') as [y'|], (find_role_in m c0) as [y|]; cbn [option_map] in *; try discriminate; try exact Hc.
+        reflexivity.
+    + (* the role is among the later siblings *)
+      rewrite RF in Hfind. destruct (replace_go (replace_role name d) name d r) as [r'|] eqn:G2; [|discriminate].
+      inversion G; subst ch'; clear G. cbn [find_go].
+      destruct (bytes_eqb (en_name c0) m); [reflexivity|]. destruct (find_role_in m c0); [reflexivity|].
+      apply (IHr (fun y Hy => IH y (or_intror Hy)) r' eq_refl Hfind).
+Qed.
+
+(* and the role itself gets the document, under the header its delegating role has for it *)
+Theorem replace_role_sets d top : forall name top',
+  replace_role name d top = Some top' ->
+  exists c, find_role_in name top = Some c /\ find_role_in name top' = Some (set_content c d).
+Proof.
+  induction top as [h v e en dk ch sg IH] using enode_ind'. intros name top' Hrep.
+  rewrite replace_role_eq in Hrep. cbn [en_children en_hdr en_version en_expires en_entries en_dkeys en_signers] in Hrep.
+  destruct (replace_go (replace_role name d) name d ch) as [ch'|] eqn:G; [|discriminate]. inversion Hrep; subst top'; clear Hrep.
+  rewrite !find_role_in_eq. cbn [en_children] in *. rewrite Forall_forall in IH.
+  revert ch' G. induction ch as [|c0 r IHr]; intros ch' G; [discriminate|]. cbn [replace_go] in G. cbn [find_go].
+  destruct (bytes_eqb (en_name c0) name) eqn:E.
+  - inversion G; subst ch'; clear G. exists c0. split; [reflexivity|]. cbn [find_go].
+    assert (en_name (set_content c0 d) = en_name c0) as -> by reflexivity. rewrite E. reflexivity.
+  - pose proof (replace_find d c0 name) as RF. destruct (replace_role name d c0) as [c0'|] eqn:R.
+    + inversion G; subst ch'; clear G. destruct (IH c0 (or_introl eq_refl) name c0' R) as (c & H1 & H2).
+      exists c. rewrite H1. split; [reflexivity|]. cbn [find_go]. rewrite (proj1 (replace_role_names d c0 name c0' R)), E, H2. reflexivity.
+    + rewrite RF. destruct (replace_go (replace_role name d) name d r) as [r'|] eqn:G2; [|discriminate].
+      inversion G; subst ch'; clear G. destruct (IHr (fun y Hy => IH y (or_intror Hy)) r' eq_refl) as (c & H1 & H2).
+      exists c. split; [exact H1|]. cbn [find_go]. rewrite E, RF. exact H2.
+Qed.
